@@ -150,6 +150,16 @@ Inductive fop :=
 Definition passes_logger (s : st) (e : ev) : bool :=
   match ekind e with KLog => llevel (lg s (elg e)) <=? elvl e | _ => true end.
 
+(* a control request refused by a dropping queue is retried by its caller (flush_log, init_backtrace,
+   ...) through a fresh log_statement call: it gets a new timestamp *)
+Definition retime (s : st) (e0 : ev) : ev :=
+  match ekind e0 with
+  | KLog => e0
+  | _ => if c_dropping K
+         then {| eid := eid e0; ets := clock s; ekind := ekind e0; elg := elg e0; elvl := elvl e0; esz := esz e0; efmt := efmt e0 |}
+         else e0
+  end.
+
 Definition fstep (s : st) (o : fop) : st :=
   match o with
   | FTick d => {| clock := clock s + d; th := th s; registered := registered s; newflag := newflag s;
@@ -180,12 +190,7 @@ Definition fstep (s : st) (o : fop) : st :=
         if negb (memb t (registered s)) then s else
         (* a control request refused by a dropping queue is retried by its caller (flush_log,
            init_backtrace, ...) through a fresh log_statement call: new timestamp *)
-        let e := match ekind e0 with
-                 | KLog => e0
-                 | _ => if c_dropping K
-                        then {| eid := eid e0; ets := clock s; ekind := ekind e0; elg := elg e0; elvl := elvl e0; esz := esz e0; efmt := efmt e0 |}
-                        else e0
-                 end in
+        let e := retime s e0 in
         let (q1, r) := prepare_write ideal (c_cap K) (q x) (esz e) in
         match r with
         | Some _ =>
@@ -321,6 +326,9 @@ Fixpoint find_dead (s : st) (l : list nat) : st * option nat :=
            let s1 := set_th s (upd (th s) u x1) in
            if e && (match tbuf x1 with [] => true | _ => false end) then (s1, Some u) else find_dead s1 r
   end.
+Definition destroy (x : thr) : thr :=
+  {| q := bq_init; qev := []; tbuf := []; tcap := 0; texists := false; tvalid := false; failc := failc x;
+     pend := pend x; counted := counted x; wflush := wflush x |}.
 Definition remove_nat (u : nat) (l : list nat) := filter (fun v => negb (Nat.eqb v u)) l.
 Fixpoint cleanup_loop (fuel : nat) (s : st) : st :=
   match fuel with
@@ -331,7 +339,8 @@ Fixpoint cleanup_loop (fuel : nat) (s : st) : st :=
     | None => s1
     | Some u =>
         cleanup_loop f
-          {| clock := clock s1; th := th s1; registered := remove_nat u (registered s1); newflag := newflag s1;
+          (* the context is destroyed: whatever its queue or buffer still held is gone *)
+          {| clock := clock s1; th := upd (th s1) u (destroy (th s1 u)); registered := remove_nat u (registered s1); newflag := newflag s1;
              invalid_cnt := (invalid_cnt s1 + 2 ^ c_bits K - 1) mod 2 ^ c_bits K; cache := remove_nat u (cache s1);
              pc := pc s1; tsnow := tsnow s1; lg := lg s1; sk := sk s1; nsinks := nsinks s1; nloggers := nloggers s1;
              flags := flags s1; obs := obs s1; issued := issued s1; delivered := delivered s1; plog := plog s1 |}
